@@ -141,6 +141,10 @@ func (g *Gen) genScalar(limit int) VSpec {
 	switch r.Pick([]int{4, 3, 3, 1}) {
 	case 0:
 		vals := []uint64{uint64(r.Intn(24)), uint64(24 + r.Intn(200)), uint64(256 + r.Intn(60000)), uint64(70000 + r.Intn(1<<20)), 1<<32 + uint64(r.Intn(1000))}
+		if r.Chance(0.15) {
+			// exactly on the boundaries of the CBOR integer widths
+			vals = []uint64{23, 24, 255, 256, 65535, 65536, 1<<32 - 1, 1 << 32, 1<<64 - 1}
+		}
 		return VSpec{U: u64p(vals[r.Intn(len(vals))])}
 	case 1:
 		return VSpec{S: &[2]int{g.sid(), r.Range(1, 20)}}
